@@ -286,8 +286,12 @@ class UnitRegistry:
         return equiv
 
     def __deepcopy__(self, memodict=None):
-        lut = copy.deepcopy(self.lut)
-        return type(self)(lut=lut)
+        # the table's values are immutable tuples; copying the dict is enough,
+        # keeps the dimension singletons, and must not re-apply the defaults
+        # over symbols the user has modified
+        return type(self)(
+            add_default_symbols=False, lut=dict(self.lut), unit_system=self.unit_system
+        )
 
 
 class _NonModifiableUnitRegistry(UnitRegistry):
